@@ -39,7 +39,7 @@ class _BatchOK(Exception):
         self.rows = rows
 
 
-def batch_for(F, rseed, want_models=6, flips=60, randoms=40):
+def batch_for(F, rseed, want_models=6, flips=60, randoms=40, max_nodes=2000):
     """tt.Batch of assignments around the models of the CNF F"""
     import random as _r
     from vlib import sat
@@ -52,9 +52,9 @@ def batch_for(F, rseed, want_models=6, flips=60, randoms=40):
         # diversify: random unit assumptions (dropped if they make the instance unsatisfiable)
         extra = [[R.choice([1, -1]) * R.randint(1, n)] for _ in range(0 if k == 0 else min(3, n))] if n else []
         try:
-            m = sat.solve(n, clauses + extra, max_nodes=2000)
+            m = sat.solve(n, clauses + extra, max_nodes=max_nodes)
             if m is None and extra:
-                m = sat.solve(n, clauses, max_nodes=2000) if not models else None
+                m = sat.solve(n, clauses, max_nodes=max_nodes) if not models else None
         except sat.Budget:
             m = None          # too hard for the bounded search: the batch lives on random rows only
             if k == 0:
@@ -65,7 +65,7 @@ def batch_for(F, rseed, want_models=6, flips=60, randoms=40):
         rows.append(m)
         for _ in range(flips // max(1, len(models))):
             a = set(m)
-            for _ in range(R.choice([1, 1, 2, 3])):
+            for _ in range(R.choice([1, 1, 2, 3]) if n else 0):
                 v = R.randint(1, n)
                 a.symmetric_difference_update({v})
             rows.append(frozenset(a))
